@@ -10,7 +10,7 @@ open Mkdb.Page Mkdb.Tuple Mkdb.Generated Mkdb.Tree
 /-! ### UPDATE -/
 
 /-- the loop of `evalUpdate` over a prefix it runs through goes on with the rest -/
-theorem evalUpdate_go_append (db : Engine.DB) (table : Bytes) (cols : List String) (src : List Val)
+theorem evalUpdate_go_split (db : Engine.DB) (table : Bytes) (cols : List String) (src : List Val)
     (tail : List (Nat × List Val)) :
     ∀ (ids : List (Nat × List Val)) (s : Store) (batch : List WalRec) (s' : Store) (B : List WalRec),
       Engine.evalUpdate.go db table cols src s batch ids = .ok () { store := s', wal := db.wal ++ B } →
@@ -26,7 +26,7 @@ theorem evalUpdate_go_append (db : Engine.DB) (table : Bytes) (cols : List Strin
     | ok logs s1 =>
       rw [e] at h
       simp only
-      exact evalUpdate_go_append db table cols src tail rest s1 _ s' B h
+      exact evalUpdate_go_split db table cols src tail rest s1 _ s' B h
     | err x s1 => rw [e] at h; cases h
     | panic p => rw [e] at h; cases h
     | unmodelled w => rw [e] at h; cases h
@@ -94,7 +94,7 @@ theorem evalUpdate_effect (db : Engine.DB) (pt sch : Levels) (tbls : List (Bytes
             obtain ⟨v, hv⟩ := Option.ne_none_iff_exists'.mp hne
             obtain ⟨buf, henc, hsz, _⟩ := (specAssign_some_iff schema sets m v).mp hv
             exact ⟨c, hc, hck, m, buf, hm, henc, hsz⟩)
-        have ego' := evalUpdate_go_append db tn _ _ tail idsPre s1 [] s' ([] ++ logs) ego
+        have ego' := evalUpdate_go_split db tn _ _ tail idsPre s1 [] s' ([] ++ logs) ego
         -- the abstraction after the rewritten prefix
         have hlen : sel.length = (live t).length := by
           rw [hsl, ← List.length_map (f := fun r : Nat × List Val => r.1), rowsOf_keys schema (live t) hdec,
